@@ -138,7 +138,8 @@ def check_internal_iteration(ck, fn, by, counting):
     clo = body.origin_operand(t["args"][-1])
     cpath = clo[1][len("closure:"):] if clo[0] == "agg" and str(clo[1]).startswith("closure:") else None
     cfn = by.get(cpath)
-    if it != ("arg", 1) or cfn is None:
+    # the iterable is the function's own input: `self` for FeedCallback, the `iter` parameter for Extend
+    if it != ("arg", 1 if counting else 2) or cfn is None:
         return False
     if kind == "try_fold" and body.origin_operand(t["args"][1]) != ("const", 0, "usize"):
         return False
@@ -146,6 +147,32 @@ def check_internal_iteration(ck, fn, by, counting):
     env, acc, item = ("sym", "env"), ("sym", "acc"), ("sym", "item")
     outs = ev.run(cfn, [env, acc, item] if kind == "try_fold" else [env, item])
     good = bool(outs) and all(o.kind == "ret" for o in outs)
+    if good and counting and kind == "all":
+        # the counter is a captured `&mut usize`: every invocation adds exactly one to it (whatever the callback answers), and the
+        # function returns that very local
+        for o in outs:
+            incs = [(k, v) for k, v in o.state.over.items() if k[0][0] == "ext" and sem.contains(k[0][1], lambda x: x == env)]
+            one = len(incs) == 1 and sem.strip(incs[0][1])[0] == "opq" and sem.strip(incs[0][1])[2][0] == "bin" and sem.strip(incs[0][1])[2][1] in ("Add", "AddUnchecked") \
+                and sem.strip(sem.strip(incs[0][1])[2][3]) == ("const", 1) and sem.contains(sem.strip(incs[0][1])[2][2], lambda x: x == env)
+            good = good and one
+        d0 = body.defs().get(0, [])
+        locs = set()
+        for d in d0:
+            pl = (d[3]["o"].get("c") or d[3]["o"].get("m")) if d[2] == "rv" and d[3]["k"] == "use" else None
+            locs.add(pl["l"] if pl and not pl["p"] else None)
+        captured = set()
+        if clo[0] == "agg":
+            for x in clo[4]:
+                x = mir.strip(x, casts=False, refs=False)
+                if x[0] == "ref" and x[1][0] in ("local",):
+                    captured.add(x[1][1])
+        good = good and len(locs) == 1 and None not in locs
+        if good:
+            # the returned local is one the closure borrows mutably
+            cl = locs.pop()
+            refs = [st_ for i2 in sorted(body.live_blocks()) for st_ in body.blocks[i2]["s"] if st_["k"] == "assign" and st_["r"]["k"] == "ref" and st_["r"]["bk"] == "mut" and st_["r"]["p"]["l"] == cl and not st_["r"]["p"]["p"]]
+            init = [d for d in body.defs().get(cl, []) if d[2] == "rv" and body.origin_rvalue(d[3]) == ("const", 0, "usize")]
+            good = len(refs) == 1 and len(init) == 1 and len(body.defs().get(cl, [])) == 1
     for o in outs:
         calls = o.calls(CALL)
         good = good and len(calls) == 1 and sem.strip(calls[0][2][-1]) == item and len([e for e in o.effects if e[0] in ("call", "icall")]) == 1 \
@@ -156,7 +183,7 @@ def check_internal_iteration(ck, fn, by, counting):
         r = sem.strip(o.ret)
         if kind == "all":
             # the closure returns the callback's verdict itself (continue while true)
-            good = good and r[0] == "opq" and r[1] == calls[0][3] or (len(verdict) == 1 and r == ("const", verdict[0][2]))
+            good = good and ((r[0] == "opq" and r[1] == calls[0][3]) or (len(verdict) == 1 and r == ("const", verdict[0][2])))
         else:
             if len(verdict) != 1 or r[0] != "agg":
                 good = False
@@ -364,7 +391,7 @@ def run(tier):
         key = fn["path"]
         # semantic form: per case of `next()` -- Some(e): e is written into `out` exactly once (a raw write, nothing read or dropped there)
         # and 0 is returned; None: `out` is not touched and a non-zero code is returned
-        ev = sem.Evaluator(by_all, {}, inline=lambda p: "::{closure" in p)
+        ev = sem.Evaluator(by_all, {}, inline=lambda p: "::{closure" in p or p.startswith(("cglue::", "<")))
         it, out = ("sym", "iter"), ("sym", "out")
         outs = ev.run(fn, [it, out])
         if not outs or any(o.kind != "ret" for o in outs):
@@ -396,7 +423,34 @@ def run(tier):
             r = sem.strip(o.ret)
             ck.ob("I-code-zero-iff-item", key + "/None", r[0] == "const" and r[1] != 0, "%s returns %s at the end (must be a non-zero constant)" % (key, sem.fmt(o.ret)))
     nf = by.get("<cglue::iter::CIterator<'a, T> as std::iter::Iterator>::next")
-    if ck.require(nf is not None, "CIterator::next"):
+    sem_next_done = False
+    if nf is not None:
+        key = nf["path"]
+        ev = sem.Evaluator(by_all, {}, inline=lambda p: "::{closure" in p or p.startswith(("cglue::", "<")))
+        me = ("sym", "self")
+        outs = ev.run(nf, [me])
+        if outs and all(o.kind == "ret" for o in outs) and all(len([e for e in o.effects if e[0] == "icall"]) == 1 for o in outs):
+            sem_next_done = True
+            ck.ob("I-next-one-call", key, True, sample={"fn": key})
+            for n_o, o in enumerate(outs):
+                ic = [e for e in o.effects if e[0] == "icall"][0]
+                fval, a0, a1 = sem.strip(ic[1]), sem.strip(ic[2][0]), sem.strip(ic[2][1])
+                own = fval[0] == "fld" and fval[3] == "func" and a0[0] == "fld" and a0[3] == "iter" and fval[1] == a0[1] and sem.contains(fval, lambda x: x == me)
+                ck.ob("I-next-own-pair", key, own, "CIterator::next does not call its own func with its own iter")
+                # the slot handed to the function is a fresh MaybeUninit::uninit()
+                slot_ok = sem.contains(a1, lambda x: x[0] == "opq" and x[2][0] == "call" and x[2][1].endswith("MaybeUninit::<T>::uninit"))
+                zero = any(c[0] == "eq" and sem.strip(c[1])[0] == "opq" and sem.strip(c[1])[1] == ic[3] and c[2] == 0 for c in o.conds)
+                reads = [e for e in o.calls() if e[1].endswith("assume_init") or e[1].endswith("assume_init_read")]
+                r = sem.strip(o.ret)
+                if zero:
+                    good = slot_ok and len(reads) == 1 and sem.contains(reads[0][2][0], lambda x: x[0] == "opq" and x[2][0] == "call" and x[2][1].endswith("MaybeUninit::<T>::uninit")) \
+                        and r[0] == "agg" and r[3] == "Some" and sem.strip(r[4][0])[0] == "opq" and sem.strip(r[4][0])[1] == reads[0][3]
+                else:
+                    good = slot_ok and not reads and r[0] == "agg" and r[3] == "None"
+                ck.ob("I-next-reads-slot-only-on-zero", "%s/case-%d" % (key, n_o), good, "CIterator::next must read the slot it passed, once, and only when the code is 0: %s" % o, sample={"fn": key})
+                ck.ob("I-next-variant-by-code", "%s/%s" % (key, "Some" if zero else "None"), (r[0] == "agg" and r[3] == ("Some" if zero else "None")),
+                      "CIterator::next returns %s for code %s 0" % (sem.fmt(o.ret), "==" if zero else "!="))
+    if not sem_next_done and ck.require(nf is not None, "CIterator::next"):
         body = mir.Body(nf)
         key = nf["path"]
         ic = [(i, t) for i, t in body.calls() if t.get("callee") is None]
